@@ -19,11 +19,13 @@ def binVariants (mode : Nat) (b : Bytes) : List Bytes :=
   ++ (List.range b.length).map (fun n => b.take n)
   ++ binExtensions.map (fun e => b ++ e)
 
-/-- replacement characters for position `i` of a string -/
+/-- replacement characters for one position of a string: two other alphabet characters, a foreign
+character, the same letter in the other case (`c xor 0x20`) and the next byte value; mode 1: every
+other alphabet character plus foreign ones -/
 def strRepl (mode : Nat) (c : UInt8) : List UInt8 :=
   let idx := (b58Index c).getD 0
-  if mode = 0 then [b58Char ((idx + 1) % 58), b58Char ((idx + 29) % 58), 0x30]
-  else ((List.range 57).map fun k => b58Char ((idx + 1 + k) % 58)) ++ [0x30, 0x6c, 0x20, 0xc3]
+  if mode = 0 then [b58Char ((idx + 1) % 58), b58Char ((idx + 29) % 58), 0x30, c ^^^ 0x20, c + 1]
+  else ((List.range 57).map fun k => b58Char ((idx + 1 + k) % 58)) ++ [0x30, 0x6c, 0x20, 0xc3, c ^^^ 0x20, c + 1, c - 1]
 
 def strExtensions : List UInt8 := [0x31, 0x32, 0x7a, 0x30]
 
